@@ -316,4 +316,121 @@ Section FndSearchLaws.
     cbn [step_c19] in E. injection E as <- <-. destruct (get_sub c t s) as [r [k|]] eqn:G; cbn [snd]; auto.
     eapply get_sub_nonroot_active_only_c19; eauto.
   Qed.
+
+  (* ---------- the auth LEVEL of the session (sess.authLvl is an int) ----------
+     'ordinary users' = every session whose level is not LevelRoot: LevelNone (0, a session object
+     that was never given a level), LevelAnon (10, anonymous-scheme account), LevelAuth (20) and
+     every other number. *)
+  Lemma s_root_false_iff_c19 s : s_root s = false <-> s_lvl s <> level_root_c19.
+  Proof. unfold s_root. apply Z.eqb_neq. Qed.
+
+  (* the flag handed to the store, exactly: activeOnly = false iff the level IS LevelRoot *)
+  Theorem get_sub_active_flag_c19 t s r k :
+    get_sub c t s = (r, Some k) -> (k_active k = true <-> s_lvl s <> level_root_c19).
+  Proof.
+    intros H. destruct (get_sub_call_c19 _ _ _ _ H) as [q [wl [_ [_ [_ [A _]]]]]]. rewrite A.
+    rewrite <- s_root_false_iff_c19. destruct (s_root s); split; intros E; try reflexivity; discriminate.
+  Qed.
+
+  Theorem get_sub_level_active_only_c19 t s r k :
+    get_sub c t s = (r, Some k) -> s_lvl s <> level_root_c19 -> k_active k = true.
+  Proof. intros H L. apply (get_sub_active_flag_c19 _ _ _ _ H). exact L. Qed.
+
+  Lemma nodup_map_inj_c19 {A B} (f : A -> B) (l : list A) x y :
+    NoDup (map f l) -> In x l -> In y l -> f x = f y -> x = y.
+  Proof.
+    induction l as [|a l IH]; cbn [map]; intros N Hx Hy E; [contradiction|].
+    inversion N as [|? ? Na Nl]; subst.
+    destruct Hx as [<-|Hx], Hy as [<-|Hy]; auto.
+    - exfalso. apply Na. rewrite E. now apply in_map.
+    - exfalso. apply Na. rewrite <- E. now apply in_map.
+  Qed.
+
+  (* whatever the level, if it is not root: every row shown is an existing, matching, ACTIVE row *)
+  Theorem get_sub_level_results_active_c19 t s ids k :
+    get_sub c t s = (FMeta ids, Some k) -> s_lvl s <> level_root_c19 ->
+    forall i, In i ids -> exists x, In x (fc_world c) /\ cd_id x = i /\
+      cand_matches_c19 (k_req k) (k_opt k) x = true /\ cd_ok x = true.
+  Proof.
+    intros H L i Hi. destruct (get_sub_results_allowed_c19 _ _ _ _ H i Hi) as [x [Hw [He [Hm Ha]]]].
+    exists x. repeat split; auto. apply Ha. now apply s_root_false_iff_c19.
+  Qed.
+
+  (* ... so, rows having distinct ids, a suspended or deleted account / topic is NEVER among the
+     results of a session that is not root *)
+  Theorem get_sub_level_never_inactive_c19 t s ids k :
+    NoDup (map cd_id (fc_world c)) ->
+    get_sub c t s = (FMeta ids, Some k) -> s_lvl s <> level_root_c19 ->
+    forall x, In x (fc_world c) -> cd_ok x = false -> ~ In (cd_id x) ids.
+  Proof.
+    intros N H L x Hx Hok Hi.
+    destruct (get_sub_level_results_active_c19 _ _ _ _ H L _ Hi) as [y [Hy [E [_ Ok]]]].
+    assert (y = x) as -> by (eapply nodup_map_inj_c19; eauto). congruence.
+  Qed.
+
+  (* the level does not matter otherwise: two sessions that differ in nothing but their levels, none
+     of them root, get the same answer and make the same store call - an anonymous or level-less
+     session sees exactly what a fully authenticated one sees *)
+  Definition sess_sim_c19 (s1 s2 : sess_c19) : Prop :=
+    s_id s1 = s_id s2 /\ s_cc s1 = s_cc s2 /\ s_lvl s1 <> level_root_c19 /\ s_lvl s2 <> level_root_c19.
+
+  Theorem get_sub_level_irrelevant_c19 t s1 s2 :
+    sess_sim_c19 s1 s2 -> get_sub c t s1 = get_sub c t s2.
+  Proof.
+    intros [Hi [Hc [L1 L2]]]. unfold get_sub_c19, active_query_c19. rewrite Hi, Hc.
+    apply Z.eqb_neq in L1. apply Z.eqb_neq in L2. now rewrite L1, L2.
+  Qed.
+
+  Definition req_sim_c19 (r1 r2 : freq_c19) : Prop :=
+    match r1, r2 with
+    | FSetDesc s1 p1 v1, FSetDesc s2 p2 v2 => s_id s1 = s_id s2 /\ p1 = p2 /\ v1 = v2
+    | FGetSub s1, FGetSub s2 => sess_sim_c19 s1 s2
+    | FUnload, FUnload => True
+    | FUserTags, FUserTags => True
+    | _, _ => False
+    end.
+
+  Lemma step_level_irrelevant_c19 t r1 r2 : req_sim_c19 r1 r2 -> step c t r1 = step c t r2.
+  Proof.
+    destruct r1 as [s1 p1 v1|s1| |], r2 as [s2 p2 v2|s2| |]; cbn [req_sim_c19]; try contradiction; auto.
+    - intros [Hi [-> ->]]. cbn [step_c19]. unfold set_desc_c19. now rewrite Hi.
+    - intros H. cbn [step_c19]. now rewrite (get_sub_level_irrelevant_c19 t s1 s2 H).
+  Qed.
+
+  (* ... through every history *)
+  Theorem run_level_irrelevant_c19 rs1 : forall rs2 t,
+    Forall2 req_sim_c19 rs1 rs2 -> run c t rs1 = run c t rs2.
+  Proof.
+    induction rs1 as [|r1 rs1 IH]; intros rs2 t F; inversion F as [|? r2 ? rs2' Hr Hrs]; subst; [reflexivity|].
+    cbn [run_c19]. rewrite (step_level_irrelevant_c19 t r1 r2 Hr).
+    destruct (step c t r2) as [t1 a]. now rewrite (IH rs2' t1 Hrs).
+  Qed.
+
+  (* the two laws over histories, for every level: whenever a session that is not root searches, the
+     store is told activeOnly and every row shown is active *)
+  Definition call_level_ok_c19 (r : freq_c19) (a : fresp_c19 * option fcall_c19) : Prop :=
+    match r, a with
+    | FGetSub s, (resp, Some k) =>
+      s_lvl s <> level_root_c19 ->
+      k_active k = true /\
+      match resp with
+      | FMeta ids => forall i, In i ids -> exists x, In x (fc_world c) /\ cd_id x = i /\ cd_ok x = true
+      | _ => True
+      end
+    | _, _ => True
+    end.
+
+  Theorem run_level_active_only_c19 rs : forall t,
+    Forall2 call_level_ok_c19 rs (snd (run c t rs)).
+  Proof.
+    induction rs as [|r rs IH]; intros t; cbn [run_c19]; [constructor|].
+    destruct (step c t r) as [t1 a] eqn:E. specialize (IH t1). destruct (run c t1 rs) as [t2 l].
+    cbn [snd] in *. constructor; [|exact IH].
+    unfold call_level_ok_c19. destruct r as [s pub priv|s| |]; auto.
+    cbn [step_c19] in E. injection E as <- <-. destruct (get_sub c t s) as [resp [k|]] eqn:G; auto.
+    intros L. split; [eapply get_sub_level_active_only_c19; eauto|].
+    destruct resp as [code|ids|]; auto.
+    intros i Hi. destruct (get_sub_level_results_active_c19 _ _ _ _ G L i Hi) as [x [Hw [He [_ Ok]]]].
+    exists x. auto.
+  Qed.
 End FndSearchLaws.
